@@ -19,12 +19,12 @@ MetaV  == {"nil", "empty", "full"}
 NlV    == {"nil", "empty", "nodes"}
 RootsV == {"none", "one", "many", "dangling", "dup", "emptyid"}
 NodesV == {"plain", "nilnode", "dupid", "emptyid", "badenum", "negenum", "rich"}
-EdgesV == {"none", "tree", "cycle", "cycle-tail", "island-cycle", "deps-cycle", "dup-deps", "dag", "dangling", "niledge", "dupedge", "emptyto", "selfloop", "negtype"}
+EdgesV == {"none", "tree", "cycle", "cycle-tail", "island-cycle", "deps-cycle", "dup-deps", "dag", "dangling", "niledge", "dupedge", "emptyto", "selfloop", "negtype", "shared-child", "random"}
 DtV    == {"none", "typed", "nilall", "other-nilname", "other-named", "runtime", "badenum", "negenum"}
-ExtraV == {"none", "nilperson", "nilextref", "niltool", "nilauthor", "nildoctype"}
+ExtraV == {"none", "nilperson", "nilextref", "niltool", "nilauthor", "nildoctype", "paren-person"}
 Shapes == [meta : MetaV, nl : NlV, roots : RootsV, nodes : NodesV, edges : EdgesV, dt : DtV, extra : ExtraV]
 \* shapes reachable by decoding protobuf wire bytes have no nil elements inside repeated fields
-Decodable(s) == s.nodes # "nilnode" /\ s.edges # "niledge" /\ s.extra = "none"
+Decodable(s) == s.nodes # "nilnode" /\ s.edges # "niledge" /\ s.extra \in {"none", "paren-person"}
 
 Outcomes == {"ok", "err", "panic", "exit", "hang", "both", "neither"}
 Allowed(o) == o \in {"ok", "err"}
